@@ -73,6 +73,9 @@ use std::{
 
 use super::{Config, Dependencies};
 
+#[cfg(uutils_findutils_verif)]
+pub use self::glob::verif as glob_verif;
+
 pub use entry::{FileType, WalkEntry, WalkError};
 
 /// Symlink following mode.
